@@ -23,7 +23,9 @@ RULE = ("scalar and 3-vector fields (affine, uniform, random integer data; renam
         "bounding box = hull of the 8 rotated corners, values = Q * trilinear interpolant of the original at the back-rotated centre for "
         "cells at least one cell inside, 0 outside, affine scalar / uniform vector fields reproduced, history == one rotation by the ordered "
         "product from a fresh rotator, clear restores the original object, quarter turns on cubic cells == Field.rotate90, refusals. "
-        "Direct probes of the interpolator at nodes, faces, random and outside points (1e-12). "
+        "Direct probes of the interpolator at nodes, faces, random and outside points (1e-12). FieldRotator._rotation compared (1e-12) with the model's "
+        "own parameterisations: from_mrp on dyadic vectors, align_vector on exact equal-length pairs, from_euler / from_rotvec with quarter-turn "
+        "angles, the quarter-turn matrices of C12's planes, argsort; unknown method names are part of the modelled histories. "
         "non-trivial = a successful rotation that is not a lattice rotation with at least one deep-inside and one outside target cell, "
         "or a refusal")
 TRUSTED = ["harness/c18.py, harness/fieldio.py + driver JSON glue",
@@ -36,9 +38,15 @@ ASSUMPTIONS = ["tolerance regime: scipy computes rotations in binary64, the mode
                "magnitude involved, geometry to 1e-9 of the region scale; the inside/outside decision of a centre within 1e-6 cell of the "
                "padded box faces is not compared"]
 UNPROVED = ["the automatic cell count is the rounded real cube-root expression: the model decides it exactly by integer cube comparisons "
-            "(theorem roundCbrt_spec) but that np.round/** compute the same is observed, not proved",
-            "rot_quarter_is_rot90 is proved for the quarter turn about the third axis with k=1 on cells square in the rotated plane "
-            "(index map of np.rot90 + C12's rotVec); the other 22 non-trivial lattice rotations are compared with Field.rotate90 on the real code only",
+            "(theorems roundCbrt_spec, rot_metadata_auto: every automatic count is >= 1; rot_lattice_copies_cells: for lattice rotations it is the "
+            "permuted count) but that np.round/** compute the same is observed, not proved",
+            "rot_quarter_is_rot90 / rot_quarter_matches_rotate90 / rot_lattice_copies_cells are proved for every plane, every integer k and all signed "
+            "permutation matrices (one rotate call); that a SEQUENCE of Field.rotate90 calls in different planes equals the single lattice rotation is "
+            "proved on the FieldRotator side (quarter_matrix_laws, history_eq_single, lattice_history_copies_cells: any history of quarter turns copies "
+            "cells of the original) and compared on the real code (kind 'quarter'), there is no object-level "
+            "theorem chaining several T.rotate90F calls",
+            "from_rotvec / from_euler are modelled for quarter-turn angles only (Raxis, eulerQ), align_vector for equal-length vectors only (ofAlign): "
+            "for other inputs the matrix entries are not rational; those rotations enter model and theorems as the matrix scipy is asked to build",
             "that scipy's float Rotation/RegularGridInterpolator implement exact matrix algebra / multilinear interpolation up to rounding is the "
             "contract validated by the correspondence run, not proved"]
 BUDGET = {"quick": 85, "thorough": 900}
@@ -326,6 +334,47 @@ def cases(rng, tier):
     for k in range(60 if tier == "quick" else 500):
         spec = gen_field_spec(rng, nmin=1, nmax=4, max_cells=40)
         yield dict(kind="interp", field=spec, sub=rng.getrandbits(30), npts=40)
+    # the rational parameterisations the model implements itself: from_mrp with dyadic parameters, from_euler with
+    # quarter-turn angles (intrinsic and extrinsic, 1-3 axes), from_rotvec about a coordinate axis, and the
+    # quarter-turn matrices of C12's planes given as matrix
+    for k in range(60 if tier == "quick" else 500):
+        which = rng.choice(["mrp", "mrp", "euler", "euler", "rotvec", "rq", "align", "align", "argsort"])
+        c = dict(kind="param", which=which)
+        if which == "argsort":
+            c["l"] = rng.sample(range(3), 3) if rng.random() < 0.7 else rng.sample(range(9), rng.randint(1, 5))
+            yield c
+            continue
+        if which == "align":
+            # final = (rational rotation) * initial: equal lengths exactly; not parallel
+            while True:
+                quat = [rng.randint(-3, 3) for _ in range(4)]
+                u = [rng.randint(-4, 4) for _ in range(3)]
+                if not any(quat[:3]) or not any(u):
+                    continue
+                M = quat_matrix(*quat)
+                fin = [sum(M[i][j] * u[j] for j in range(3)) for i in range(3)]
+                cr = [u[1] * fin[2] - u[2] * fin[1], u[2] * fin[0] - u[0] * fin[2], u[0] * fin[1] - u[1] * fin[0]]
+                if any(cr):
+                    break
+            sc = rng.choice([1, 2, Fraction(1, 2)])
+            c.update(initial=[[int(x * sc * 2), 2] for x in u],
+                     final=[[(x * sc).numerator, (x * sc).denominator] for x in fin])
+        elif which == "mrp":
+            c["p"] = [[rng.randint(-12, 12), 2 ** rng.randint(0, 3)] for _ in range(3)]
+        elif which == "euler":
+            m = rng.randint(1, 3)
+            axes = [rng.randrange(3)]
+            while len(axes) < m:
+                a = rng.randrange(3)
+                if a != axes[-1]:
+                    axes.append(a)
+            c.update(axes=axes, ks=[rng.randint(-5, 5) for _ in range(m)], intrinsic=rng.random() < 0.5)
+        elif which == "rotvec":
+            c.update(a=rng.randrange(3), k=rng.randint(-6, 6))
+        else:
+            p, q = rng.sample(range(3), 2)
+            c.update(p=p, q=q, k=rng.randint(-9, 9))
+        yield c
     for k in range(60 if tier == "quick" else 400):
         yield dict(kind="refuse", why=rng.choice(["nvdim", "nvdim", "ndim", "ndim", "nomap", "partial", "baddim", "noninj", "fine"]),
                    sub=rng.getrandbits(30), rot=gen_rot(rng))
@@ -383,6 +432,8 @@ def run_impl(case):
                 if R.field is not cur or not np.array_equal(before, R._rotation.as_matrix()):
                     fail(f"{label}: refused rotation method changed the rotator")
                 obs["tags"].append("op:bad-method")
+                model_ops.append(dict(unknown=True))
+                steps.append(dict(t="unknown", ok=False, rotm=R._rotation.as_matrix().tolist()))
                 continue
             try:
                 name = apply_rot(R, op["rot"], op["n"], rng)
@@ -466,6 +517,7 @@ def run_impl(case):
         g = R.field
         obs["g"] = g
         obs["quarter_len"] = len(seq)
+        obs["seq"] = [list(t) for t in seq]
         sc = max(1.0, float(np.abs(f.array).max()))
         if [int(k) for k in g.mesh.n] != [int(k) for k in ref.mesh.n]:
             fail("quarter turn: cell counts differ from rotate90")
@@ -476,6 +528,60 @@ def run_impl(case):
             fail(f"quarter turn {seq} on cubic cells: FieldRotator values differ from Field.rotate90")
         obs["tags"] += [f"quarter-len:{len(seq)}", f"nvdim:{f.nvdim}"]
         obs["nontrivial"] = len(seq) > 0
+    elif case["kind"] == "param" and case["which"] == "argsort":
+        # the step `[..., ordered_idx.argsort()]` of rotate(): numpy's argsort on distinct keys
+        obs["tags"].append("param:argsort")
+        obs["field"] = True
+        obs["req"] = dict(op="argsort", l=case["l"])
+        obs["argsort"] = [int(k) for k in np.array(case["l"]).argsort()]
+        obs["nontrivial"] = True
+    elif case["kind"] == "param":
+        mesh = df.Mesh(p1=(0, 0, 0), p2=(2, 3, 1), n=(2, 3, 1))
+        f = df.Field(mesh, nvdim=1, value=1.0)
+        R = df.FieldRotator(f)
+        which = case["which"]
+        obs["tags"].append("param:" + which)
+        half = math.pi / 2
+        if which == "align":
+            ini = [Fraction(a, b) for a, b in case["initial"]]
+            fin = [Fraction(a, b) for a, b in case["final"]]
+            R.rotate("align_vector", initial=[float(x) for x in ini], final=[float(x) for x in fin], n=(1, 1, 1))
+            obs["req"] = dict(op="align", initial=Qs(ini), final=Qs(fin))
+            # the method's contract (docstring): initial is rotated to final, the cross product is kept fixed
+            M_ = R._rotation.as_matrix()
+            a_, b_ = np.array([float(x) for x in ini]), np.array([float(x) for x in fin])
+            cr_ = np.cross(a_, b_)
+            sc_ = max(float(np.abs(a_).max()), 1.0)
+            if np.abs(M_ @ a_ - b_).max() > 1e-9 * sc_ or np.abs(M_ @ cr_ - cr_).max() > 1e-9 * max(float(np.abs(cr_).max()), 1.0):
+                fail(f"align_vector: initial {a_} is not rotated to final {b_} with the cross product fixed")
+        elif which == "mrp":
+            p = [Fraction(a, b) for a, b in case["p"]]
+            R.rotate("from_mrp", [float(x) for x in p], n=(1, 1, 1))
+            obs["req"] = dict(op="mrp", p=Qs(p))
+        elif which == "euler":
+            seq = "".join("xyz"[a] for a in case["axes"])
+            seq = seq.upper() if case["intrinsic"] else seq
+            R.rotate("from_euler", seq, [k * half for k in case["ks"]], n=(1, 1, 1))
+            obs["req"] = dict(op="euler", intrinsic=case["intrinsic"], axes=case["axes"], ks=case["ks"])
+        elif which == "rotvec":
+            v = [0.0, 0.0, 0.0]
+            v[case["a"]] = case["k"] * half
+            R.rotate("from_rotvec", v, n=(1, 1, 1))
+            obs["req"] = dict(op="raxis", a=case["a"], k=case["k"])
+        else:
+            # the quarter turn of the plane (p, q) as C12 defines it: e_p -> cos e_p + sin e_q
+            c_, s_ = [(1, 0), (0, 1), (-1, 0), (0, -1)][case["k"] % 4]
+            G = [[int(i == j) for j in range(3)] for i in range(3)]
+            a, b = case["p"], case["q"]
+            G[a][a], G[a][b], G[b][a], G[b][b] = c_, -s_, s_, c_
+            R.rotate("from_matrix", G, n=(1, 1, 1))
+            obs["req"] = dict(op="rq", p=a, q=b, k=case["k"])
+        obs["field"] = True
+        obs["rotm"] = R._rotation.as_matrix().tolist()
+        M = np.array(obs["rotm"])
+        if np.abs(M @ M.T - np.eye(3)).max() > 1e-12 or abs(np.linalg.det(M) - 1) > 1e-12:
+            fail(f"{which}: accumulated rotation {M.tolist()} is not a proper rotation")
+        obs["nontrivial"] = True
     elif case["kind"] == "interp":
         f, info = build_field(case["field"])
         obs["field"] = fieldio.field_json(f)
@@ -595,7 +701,9 @@ def model_requests(case, obs):
     if case["kind"] == "quarter":
         Mq = quat_matrix(*case["quat"])
         return [dict(op="history", field=obs["field"], ops=[dict(rot=[Qs(r) for r in Mq], n=[int(k) for k in obs["g"].mesh.n])]),
-                dict(op="quat", q=Qs(case["quat"]))]
+                dict(op="quat", q=Qs(case["quat"]))] + [dict(op="rq", p=a, q=b, k=k) for (a, b, k) in obs["seq"]]
+    if case["kind"] == "param":
+        return [obs["req"]]
     if case["kind"] == "interp":
         return [dict(op="interp", field=obs["field"], pts=obs["pts"])]
     Mq = quat_matrix(*case["rot"]["quat"])
@@ -694,6 +802,29 @@ def compare(case, obs, rs):
         cmp_rotated("quarter turn", obs["g"], r["ok"][0], dis, False)
         if not rs[1]["is_rot"] or [[F(x) for x in row] for row in rs[1]["ok"]] != quat_matrix(*case["quat"]):
             dis.append(f"harness matrix of quaternion {case['quat']} differs from the model's ofQuat {rs[1]}")
+        # the model's quarter-turn matrices Rq (the ones the theorems speak about), multiplied in call order,
+        # are the lattice rotation that was compared with Field.rotate90 on the real code
+        P = EYE
+        for r in rs[2:]:
+            if not r.get("is_rot"):
+                dis.append(f"model Rq is not a rotation: {r}")
+            P = mmul([[F(x) for x in row] for row in r["ok"]], P)
+        if P != quat_matrix(*case["quat"]):
+            dis.append(f"product of the model's quarter-turn matrices for {obs['seq']} differs from the lattice rotation {case['quat']}")
+        return dis
+    if case["kind"] == "param":
+        r = rs[0]
+        if "ok" not in r:
+            return [f"param {case['which']}: model {r}"]
+        if case["which"] == "argsort":
+            if r["ok"] != obs["argsort"]:
+                dis.append(f"argsort({case['l']}): numpy {obs['argsort']} vs model {r['ok']}")
+            if sorted(case["l"]) == [0, 1, 2] and r["inv"] != obs["argsort"]:
+                dis.append(f"argsort of the permutation {case['l']}: numpy {obs['argsort']} vs the model's invAt {r['inv']}")
+            return dis
+        if case["which"] in ("mrp", "align") and not r.get("is_rot"):
+            dis.append(f"model matrix for {case['which']} {obs['req']} is not a rotation")
+        cmp_rot(f"{case['which']} {obs['req']}", obs["rotm"], r["ok"], dis)
         return dis
     if case["kind"] == "interp":
         r = rs[0]
